@@ -66,6 +66,9 @@ WellFormedItem(item) == IF IsBlockItem(item) THEN Cardinality(item) = 1 /\ Cardi
                         ELSE item # {} /\ {} \notin item
 WellFormed(w) == /\ \A p, q \in w : p.id = q.id => p = q
                  /\ \A p \in w : \A c \in Classes : \A item \in p.deps[c] : WellFormedItem(item)
+                 \* no package carries a blocker that matches itself (C17's carve-out: the planner treats
+                 \* such a package as conflicting with itself and cannot roll its replacement back)
+                 /\ \A p \in w : \A b \in BlockAtoms(p) : ~Matches(b, p)
                  \* an installed database holds one package per name and slot, a repo one per version
                  /\ \A p, q \in Vdb(w) : SameSlot(p, q) => p = q
                  /\ \A p, q \in Src(w) : (p.repo = q.repo /\ p.key = q.key /\ p.ver = q.ver) => p = q
